@@ -43,6 +43,8 @@ class Sim:
         self.picks = list(picks)
         self.pick_i = 0
         self.stuck = set(stuck)          # submission indices of batches that never complete
+        self.stuck_tags = set()          # ... or harness-level tags (e.g. (call, first task index)) of such batches
+        self.tag_fn = None
         self.main = _Th("main")
         self.cb = _Th("cb")
         self.current = self.main
@@ -73,7 +75,10 @@ class Sim:
             return False
         if self.cb_busy:
             return not (self.cb_blocked_on_lock())
-        return any(seq not in self.stuck for seq, _ in self.pending)
+        return any(not self._is_stuck(seq, r) for seq, r in self.pending)
+
+    def _is_stuck(self, seq, runner):
+        return seq in self.stuck or (self.stuck_tags and getattr(runner, "tag", None) in self.stuck_tags)
 
     def cb_blocked_on_lock(self):
         return getattr(self, "_cb_waiting_lock", False) and self.lock_owner is self.main
@@ -132,7 +137,7 @@ class Sim:
         self.cb.ev.clear()
         try:
             while not self.stopping:
-                cands = [k for k, (seq, _) in enumerate(self.pending) if seq not in self.stuck]
+                cands = [k for k, (seq, r) in enumerate(self.pending) if not self._is_stuck(seq, r)]
                 if cands:
                     k = cands[self._pick(len(cands))]
                     seq, runner = self.pending.pop(k)
@@ -140,6 +145,7 @@ class Sim:
                     try:
                         self.events.append(("complete", seq))
                         self.running_seq = seq
+                        self.n_started = getattr(self, "n_started", 0) + 1
                         runner()
                     except SimStop:
                         raise
@@ -219,7 +225,8 @@ class Sim:
             self._handover(self.cb)
 
     # ------------------------------------------------------------------ submission / end of run
-    def submit(self, runner):
+    def submit(self, runner, tag=None):
+        runner.tag = self.tag_fn(tag) if (self.tag_fn is not None and tag is not None) else None
         self.sp("submit")
         seq = self.n_submitted
         self.n_submitted += 1
@@ -351,7 +358,7 @@ class SimPool:
             res.done = True
             if callback is not None:
                 callback(out)
-        self.sim.submit(runner)
+        self.sim.submit(runner, tag=func)
         return res
 
     def close(self):
@@ -431,7 +438,7 @@ class SimExecutor:
                 return
             self.sim.n_tasks_finished += 1
             fut.set_result(out)
-        seq = self.sim.submit(runner)
+        seq = self.sim.submit(runner, tag=func)
         self.futures[seq] = fut
         return fut
 
